@@ -2,6 +2,8 @@
 # try_eq.sh <name> [props...] : applies /verif/seeded/<name>/all.patch (behaviour-preserving changes) to /repo,
 # runs the quick checks (all 20 by default), reverts. Every check must stay silent.
 set -u
+# evidence of runs against a deliberately changed tree goes to a scratch directory, never to /verif/evidence
+export VERIF_EVIDENCE_DIR=$(mktemp -d /tmp/verif-evidence-seeded.XXXXXX)
 NAME=$1; shift
 PROPS=${@:-C01 C02 C03 C04 C05 C06 C07 C08 C09 C10 C11 C12 C13 C14 C15 C16 C17 C18 C19 C20}
 cd /repo && git status --short | grep -q . && { echo "/repo not clean"; exit 1; }
